@@ -389,6 +389,11 @@ def _summarise(ctx, kind, axes_values):
     for (check, where), items in ctx.fail.items():
         sig = {'check': check, 'kind': kind, 'where': where}
         keys = set().union(*[set(a.keys()) for a, _ in items])
+        stored = ctx.case.get('sig_axes')
+        if stored is not None:
+            # narrowed replay descriptor: the separating option values were determined by the full case
+            sig.update(stored)
+            keys = ()
         for k in sorted(keys):
             vals = {_sigval(k, a.get(k)) for a, _ in items}
             allv = axes_values.get(k)
@@ -402,6 +407,7 @@ def _summarise(ctx, kind, axes_values):
         axes0, det0 = items[0]
         narrowed = dict(ctx.case)
         narrowed['only'] = {k: v for k, v in axes0.items() if k in ('bc', 'diag', 'const', 'mtype', 'x', 'mat', 'phase')}
+        narrowed['sig_axes'] = {k: v for k, v in sig.items() if k not in ('check', 'kind', 'where')}
         det = dict(det0)
         det['failing_subpoints'] = len(items)
         det['first_failing_axes'] = axes0
